@@ -43,7 +43,9 @@ def make_blobs():
     return out
 
 
-ALPHABET = ["L", "Ua55", "Ua60", "Ua31", "Un55", "Ub55", "Ua77", "Ua5v", "P", "Pn", "Pq", "Xa60", "Xa77"]
+ALPHABET = ["L", "Ua55", "Ua60", "Ua31", "Un55", "Ub55", "Ua77", "Ua5v", "P", "Pn", "Pq", "Xa60", "Xa77", "M"]
+# "M": load a DIFFERENT root key (another id): what the cache holds for the first root key is none of its business
+OTHER_ROOT = refdc.RootKeyRec(uuid.UUID("11111111-2222-3333-4444-555555555555"), bytes(range(100, 164)))
 # "X…": unprotect of a DAMAGED copy of that blob (last content octet flipped): the key is obtained as for the intact blob, then decryption
 # fails — what was obtained on the way still covers its position for later calls
 
@@ -54,7 +56,7 @@ def damaged(blob):
 
 def covered_by_history(done_ops, op, blobs, dc_now):
     """direct oracle for the second sentence of C10: must this op avoid the DC?"""
-    if op in ("L", "Pn", "Pq"):
+    if op in ("L", "Pn", "Pq", "M"):
         return None
     if "L" in done_ops:
         return True                      # root key loaded: everything of that root key is covered
@@ -80,6 +82,8 @@ def run_history(ctx, ops, blobs, use_async=False):
             n0 = sim.dc_calls
             if op == "L":
                 sim.load(dc.roots[RK])
+            elif op == "M":
+                sim.load(OTHER_ROOT)
             elif op[0] == "U":
                 blob, pt, pos, sid = blobs[op[1:]]
                 must_not_call = covered_by_history(done, op, blobs, dc.now)
@@ -178,7 +182,7 @@ def run(ctx):
     blobs = make_blobs()
     cases = []
     depth = 5 if ctx.thorough else 4
-    small = ["L", "Ua55", "Ua60", "Un55", "Ub55", "Ua77", "Ua5v", "P", "Pn", "Pq", "Xa60"]
+    small = ["L", "Ua55", "Ua60", "Un55", "Ub55", "Ua77", "Ua5v", "P", "Pn", "Pq", "Xa60", "M"]
     n = 0
     for d in range(1, depth + 1):
         if d <= 3:
